@@ -88,6 +88,14 @@ func PurgeBuildReverseIndex(stores context2.Stores, opts ...PurgeOption) (*Purge
 		zap.Stringer("blob_store", blob),
 	)
 
+	if !options.resume && options.indexStart == 0 {
+		// a new index replaces the previous one: the chunks of a previous index must go, since the new index
+		// may well be made of fewer chunks (left behind, they would keep their keys in use forever).
+		if err = PurgeDropReverseIndex(stores, opts...); err != nil {
+			return nil, err
+		}
+	}
+
 	if options.resume {
 		// reload existing index files into a fresh local KV store
 		lastIndex, numKeys, ts, erp := preloadIndexFiles(ctx, stores, db, logger, options)
